@@ -141,24 +141,6 @@ func c12Setup(c *C12Case) (string, error) {
 	return root, nil
 }
 
-var chdirMu sync.Mutex
-
-// inDir runs f with the process' working directory set to dir.
-func inDir(dir string, f func()) error {
-	chdirMu.Lock()
-	defer chdirMu.Unlock()
-	old, err := os.Getwd()
-	if err != nil {
-		return err
-	}
-	if err := os.Chdir(dir); err != nil {
-		return err
-	}
-	defer os.Chdir(old)
-	f()
-	return nil
-}
-
 func checkC12(c C12Case) (bool, *Violation) {
 	root, err := c12Setup(&c)
 	defer func() {
